@@ -420,6 +420,14 @@ impl Primitive {
     }
 
     pub fn runtime_addr_check(&self, rhs: &Self) -> Result<Primitive> {
+        // a present optional is the value it holds
+        if let Self::Optional(Some(inner)) = self {
+            return inner.runtime_addr_check(rhs);
+        }
+        if let Self::Optional(Some(inner)) = rhs {
+            return self.runtime_addr_check(inner);
+        }
+
         match (self, rhs) {
             (Self::BuiltInFunction(id1), Self::BuiltInFunction(id2)) => {
                 return Ok(Primitive::Bool(id1 == id2))
